@@ -57,8 +57,17 @@ pub fn rerun(line: &str) -> Option<String> {
         ["wasm", hx, ops] | ["wasmn", hx, ops] => Some(crate::wasmops::wasm_line(
             &String::from_utf8(unhex(hx)).ok()?, &crate::wasmops::parse(ops)?)),
         ["wasmqr", hx] => Some(crate::wasmops::wasmqr_line(&String::from_utf8(unhex(hx)).ok()?)),
+        ["buildhh", hx, e, m, v, k, steps] => {
+            let st: Option<Vec<crate::common::Opts>> = if steps.is_empty() { Some(vec![]) } else { steps.split(';').map(crate::common::opts_parse).collect() };
+            Some(crate::gen::buildhh_line(&unhex(hx), &st?, crate::common::Opts { ecl: optn(e), mode: optn(m), version: optn(v), mask: optn(k) }))
+        }
+        ["buildhh", hx, e, m, v, k] => Some(crate::gen::buildhh_line(&unhex(hx), &[], crate::common::Opts { ecl: optn(e), mode: optn(m), version: optn(v), mask: optn(k) })),
+        ["classifyh", hx, steps, fin] => {
+            let st: Option<Vec<crate::common::Opts>> = steps.split(';').filter(|x| !x.is_empty()).map(crate::common::opts_parse).collect();
+            Some(crate::gen::classifyh_line(&unhex(hx), &st?, crate::common::opts_parse(fin)?))
+        }
         ["buildbig", run, len, tail, e] => Some(crate::gen::buildbig_line(
-            u8::from_str_radix(run, 16).ok()?,
+            &unhex(run),
             len.parse().ok()?,
             if *tail == "-" { None } else { Some(u8::from_str_radix(tail, 16).ok()?) },
             optn(e),
@@ -69,6 +78,9 @@ pub fn rerun(line: &str) -> Option<String> {
             &unhex(hx), crate::common::Opts { ecl: optn(e), mode: optn(m), version: optn(v), mask: optn(k) }, &crate::svgops::parse(ops)?)),
         ["termt", hx, e, m, v, k] => Some(crate::gen::termt_line(
             &unhex(hx), crate::common::Opts { ecl: optn(e), mode: optn(m), version: optn(v), mask: optn(k) })),
+        ["svgcmd", hx, e, m, v, k, mg] => Some(crate::gen::svgcmd_line(
+            &unhex(hx), crate::common::Opts { ecl: optn(e), mode: optn(m), version: optn(v), mask: optn(k) }, mg.parse().ok()?)),
+        ["refile", a, b, ops] => Some(crate::histops::refile_line(&unhex(a), &unhex(b), &crate::svgops::parse(ops)?)),
         ["termpc", hx, e, m, v, k] => Some(crate::gen::termpc_line(
             &unhex(hx), crate::common::Opts { ecl: optn(e), mode: optn(m), version: optn(v), mask: optn(k) })),
         ["termp", hx, e, m, v, k] => Some(crate::gen::termp_line(
